@@ -48,7 +48,7 @@ def sign_sensitive(c):
     return any(e['cls'] == 'odo' and c['verts'][e['vs'][0] - 1]['k'] == 'SE3' for e in c['edges'])
 
 
-def evaluate(run, cases, name, conventions=('canon', 'raw')):
+def evaluate(run, cases, name, conventions=('canon', 'raw'), invariants=('Symmetric',)):
     """TLC evaluates every case under the sign-canonical convention of the SE(3) rotational error and, where it can differ,
     under the raw one as well.  Returns list of (case, [obs_canon, obs_raw?])."""
     old = EC.headroom_class
@@ -61,7 +61,7 @@ def evaluate(run, cases, name, conventions=('canon', 'raw')):
                 if conv == 'raw' and not sign_sensitive(c):
                     continue
                 expanded.append(dict(c, conv=conv, base=n))
-        pairs = EC.evaluate(expanded, K, name, run, spec='MC_Assembly', invariants=('Symmetric',), max_retry=12)
+        pairs = EC.evaluate(expanded, K, name, run, spec='MC_Assembly', invariants=invariants, max_retry=12)
         out = {}
         for c, obs in pairs:
             out.setdefault(c['base'], []).append(obs)
